@@ -3,11 +3,11 @@
 set -e
 n=$1
 cd /repo
-git worktree remove --force /tmp/wt-$n 2>/dev/null || true
-git branch -D scratch-$n 2>/dev/null || true
-git worktree add -q -b scratch-$n /tmp/wt-$n HEAD
-cd /tmp/wt-$n
+git worktree remove --force /tmp/wt2-$n 2>/dev/null || true
+git branch -D scratch2-$n 2>/dev/null || true
+git worktree add -q -b scratch2-$n /tmp/wt2-$n HEAD
+cd /tmp/wt2-$n
 git ls-files "*zz_contracts_verif.go" | xargs -r git rm -q --cached
 find . -name zz_contracts_verif.go -delete
 git commit -qm "scratch: without verif hook files" || true
-echo /tmp/wt-$n
+echo /tmp/wt2-$n
